@@ -135,6 +135,11 @@ def judge (dest : Path) (ready : Bool) (inp? : Option Input) (impl : String) : S
         else "holds"
 
 def handle (_op : String) (args : List String) (impl : String) : String :=
+  -- an optional 5th token `via=…` says how the harness SPELLED the destination for `extract` (relative, through
+  -- "..", through a symbolic link of its own): the directory meant — and therefore the model — is the same
+  let args := match args with
+    | [a, b, c, d, v] => if v.startsWith "via=" then [a, b, c, d] else args
+    | _ => args
   match args with
   | [hp, ha, hd, js] =>
     match bytesOfHex hp, (if ha == "-" then some none else (bytesOfHex ha).map some), bytesOfHex hd, parseJail js with
